@@ -4,6 +4,7 @@ import TR.Model.Adaptive
 import TR.Model.Limit
 import TR.Model.Stack
 import TR.Model.Budget
+import TR.Model.BudgetTrace
 import TR.Model.TimeLimiter
 import TR.Model.Chaos
 import TR.Model.Fallback
@@ -38,7 +39,7 @@ def machineOf (name : String) : Option Machine :=
   | "fallback" => some Fallback.machine
   | "chaos" => some Chaos.machine
   | "timelimiter" => some TimeLimiter.machine
-  | "budget" => some Budget.machine
+  | "budget" => some Budget.machineT
   | "stack" => some Stack.machine
   | "limit" => some Limit.machine
   | "adaptive" => some Adaptive.machine
